@@ -46,6 +46,8 @@ def check(ctx):
   ctx.rule('C20.R2', 'shared with C20: the generated proxy hands the method name, args and kwargs it was called with to the dispatcher unchanged (a keyword the proxy keeps for itself never reaches the '
                      'generated args struct: the server decodes a call the caller did not make)')
   c20.r2(ctx, prog.func('scales/core.py', 'ClientProxyBuilder._BuildServiceProxy'))
+  ctx.rule('C20.R1', 'shared with C20: both generated forms of a method dispatch under the interface\'s method name (the `_async` twin is keyed `<name>_async` but calls `<name>`: the serializer looks up `<name>_args`)')
+  c20.r1(ctx, prog.func('scales/core.py', 'ClientProxyBuilder._BuildServiceProxy'))
 
 
 def r1(ctx):
